@@ -445,7 +445,48 @@ theorem validate_ok_names_nodup (nt nd : Nat) (names : List String) (h : validat
     · rename_i h1 h2
       exact ⟨by simpa using h2, by simpa using h1⟩
 
+/-- **One prediction per recorded instance.**  For an estimator whose `predict` answers with one value per
+instance it is handed (`hL`), after ANY history of runs every stored record has as many true values and as many
+predictions as recorded instances, whatever the length of the part: a part of ONE instance is stored as a record
+of length one (not as a scalar), an empty part as an empty record. -/
+theorem record_one_prediction_per_instance (cfg : Cfg N K) (L : Learner W) (items : List (Item N))
+    (hk : KeyInj cfg items) (hL : ∀ w X, (L.predict w X).length = X.length) (history : List RunSpec) :
+    ∀ r ∈ runHistory cfg L items (St.empty : St N K W) history, ∀ it ∈ items, ∀ p rec,
+      get? (rk cfg it p) r.st.recs = some rec →
+      rec.c.idx = it.idx p ∧ rec.c.yTrue.length = (it.idx p).length ∧ rec.c.yPred.length = (it.idx p).length := by
+  intro r hr it hit p rec hg
+  obtain ⟨hc, _, _⟩ := (record_eq_honest_fold cfg L items hk history r hr it hit).1 p rec hg
+  rw [hc]
+  cases p <;> simp [honest, instances, Item.idx, hL]
+
+/-- **The existence checks look at keys only.**  Whether a record / a saved fitted strategy "exists" (and with it
+the skip decision, the fits performed and the files written by a run) does not depend on WHAT is stored under the
+keys: two stores with the same record keys and the same saved-strategy keys give the same existence flags for
+every work item, whatever the stored index, true values and predictions are (labels of any spelling, missing
+values, records of any length). -/
+theorem existence_checks_ignore_content (cfg : Cfg N K) (st st' : St N K W) (it : Item N)
+    (hr : keys st.recs = keys st'.recs) (hs : keys st.strats = keys st'.strats) :
+    flagsOf cfg st it = flagsOf cfg st' it ∧
+    ∀ o, skip o (flagsOf cfg st it) = skip o (flagsOf cfg st' it) := by
+  have hR : ∀ k, has k st.recs = has k st'.recs := fun k => by
+    rw [Bool.eq_iff_iff, has_iff_mem_keys, has_iff_mem_keys, hr]
+  have hS : ∀ k, has k st.strats = has k st'.strats := fun k => by
+    rw [Bool.eq_iff_iff, has_iff_mem_keys, has_iff_mem_keys, hs]
+  have h : flagsOf cfg st it = flagsOf cfg st' it := by simp [flagsOf, hR, hS]
+  exact ⟨h, fun o => by rw [h]⟩
+
 /-! ### non-vacuity: the hypotheses above are met by a concrete, non-trivial configuration -/
+
+/-- `record_one_prediction_per_instance`: the witness estimator answers one value per instance, and the witness
+items have a test part of exactly ONE instance, stored as a record of length one -/
+example : (∀ w X, (wL.predict w X).length = X.length) ∧ ∀ it ∈ wItems, (it.idx .test).length = 1 := by
+  refine ⟨fun _ X => by simp [wL], by decide⟩
+/-- `existence_checks_ignore_content`: two stores with the same keys and different contents -/
+example :
+    let a : St Nat (Nat × Nat × Part × Nat) Unit := { (St.empty) with recs := [((0, 0, .test, 0), ⟨⟨[2], [0], [0]⟩, 0, 0, 0⟩)] }
+    let b : St Nat (Nat × Nat × Part × Nat) Unit := { (St.empty) with recs := [((0, 0, .test, 0), ⟨⟨[2], [7], [5]⟩, 3, 0, 0⟩)] }
+    keys a.recs = keys b.recs ∧ a.recs ≠ b.recs ∧ (flagsOf (hddCfg Nat) a (⟨0, 0, 0, wData, 0, [0, 1], [2]⟩ : Item Nat)).testEx = true := by
+  decide
 
 example : wItems = mkWork [⟨0, wData, [([0, 1], [2])]⟩] [⟨0, 0⟩, ⟨1, 0⟩] := by decide
 /-- injective keys (hypothesis `hk`) -/
